@@ -135,7 +135,7 @@ def run_part(ctx):
                       depth=7, constants={"MaxFiles": "4"})
     tlc.append(sim)
     # -simulate evaluates Emit on every successor of every state it visits: far more histories than behaviours; a slice is replayed
-    sof = 10 if thorough else 20
+    sof = 20
     strace, ssumm, fatal2 = replay(ctx, sim["out"], "sim", slice_=ctx.seed % sof, of=sof)
     srecs, sfails, trs = judge(ctx, strace, "sim")
     tlc += trs
